@@ -7,8 +7,16 @@ TSS_ASSUME = [
     "the signing group is installed by a trusted dealer through keeper setters and made the current bandtss group "
     "(the DKG is property C04); tss / bandtss parameters of a script are set with the keepers' SetParams before the trace",
     "L1 handler layer: messages go through app.MsgServiceRouter() on a branched context; signatures/ante handlers are not exercised",
-    "signing sources driven: bandtss MsgRequestSignature (direct) and oracle requests with a TSS encoder resolving at end-block; "
-    "tunnel packets and group transitions create signings through the same tss.RequestSigning and are not driven here",
+    "all four signing sources are driven through their real entry points: bandtss MsgRequestSignature (direct); oracle requests "
+    "with a TSS encoder resolving in the oracle end-blocker; packets of a TSS-route tunnel (MsgTriggerTunnel inside a block and the "
+    "tunnel end-blocker, incl. packets dropped for lack of available members and the unfunded fee payer); the hand-over message of "
+    "a group transition (bandtss MsgTransitionGroup from the authority; created by OnGroupCreationCompleted in the tss end-blocker's "
+    "pending-group phase, incl. the dropped transition) and, while the transition awaits execution, the best-effort requests to the incoming group",
+    "environment of the tunnel source: tunnel params, one tunnel created/deposited through the real tunnel msg server, its feed price "
+    "(FeedsKeeper.SetPrice), the fee payer's balance (bank MsgSend) and the tunnel's (de)activation by its creator (real MsgActivate/"
+    "MsgDeactivate) decide when a packet is due; environment of the transition: the key-generation outcome of the incoming group is "
+    "installed at DKG round 3 with keeper setters (as in fam_bandtss; the DKG is property C04), same three accounts and threshold as "
+    "the current group; the transition is never executed inside a trace (exec time far ahead)",
     "block time advances 1 s per block (the bandtss penalty is counted in blocks by the specification)",
     "registration serial of a nonce pair = driver-side map (address, PubD|PubE bytes) -> order of registration; "
     "the number of stored DE entries per address is read from the raw tss store (prefix iteration), everything else through exported keeper getters",
@@ -19,16 +27,19 @@ def _mc(cfg, tier="thorough", timeout=2400):
 
 
 # thorough facets (measured at 6 workers on a loaded 16-core box, see the family report)
-_MC_C05 = [_mc("TssSigning_MC_h5.cfg"), _mc("TssSigning_MC_pre.cfg"), _mc("TssSigning_MC_t1a3.cfg"), _mc("TssSigning_MC_x.cfg")]
-_MC_C10 = [_mc("TssSigning_MC_pchg.cfg"), _mc("TssSigning_MC_pen.cfg"), _mc("TssSigning_MC_p2.cfg"), _mc("TssSigning_MC_live3.cfg")]
+_TRANS = _mc("TssSigning_MC_trans.cfg", "quick", 600)   # group transition: hand-over signing, incoming-group requests
+_MC_C05 = [_mc("TssSigning_MC_tun.cfg"), _mc("TssSigning_MC_h5.cfg"), _mc("TssSigning_MC_pre.cfg"), _mc("TssSigning_MC_t1a3.cfg"),
+           _mc("TssSigning_MC_x.cfg")]
+_MC_C10 = [_mc("TssSigning_MC_tun.cfg"), _mc("TssSigning_MC_pchg.cfg"), _mc("TssSigning_MC_pen.cfg"), _mc("TssSigning_MC_p2.cfg"),
+           _mc("TssSigning_MC_live3.cfg")]
 
 _RULE = ("scripts = TLC -simulate walks of TssSigning.tla (role-relative: members by index, k-th assigned / unassigned member "
          "of signing j) + seeded random scripts; a script is non-trivial if its recorded trace contains a time-out, a retry, "
-         "a reset while a signing is WAITING, or a rolled-back creation; distinct = SHA-256 of the abstract script")
+         "a reset while a signing is WAITING, a rolled-back creation, a dropped tunnel packet / hand-over, or a failed incoming-group request; distinct = SHA-256 of the abstract script")
 
 PROPS = {
     "C05": dict(
-        mc=[_mc("TssSigning_MC_C05.cfg", "quick", 900)] + _MC_C05,
+        mc=[_mc("TssSigning_MC_C05.cfg", "quick", 900), _TRANS] + _MC_C05,
         gen=dict(tla="TssSigning_Gen.tla", cfg="TssSigning_Gen.cfg", depth=26, num=dict(quick=300, thorough=4000), timeout=900),
         drive=dict(family="tsssigning", mode="c05", nrand=dict(quick=300, thorough=6000)),
         trace=dict(tla="TssSigning_Trace.tla", cfg="TssSigning_Trace_C05.cfg"),
@@ -36,7 +47,7 @@ PROPS = {
         assumptions=TSS_ASSUME,
     ),
     "C10": dict(
-        mc=[_mc("TssSigning_MC_C10.cfg", "quick", 900), _mc("TssSigning_MC_live.cfg", "quick", 300)] + _MC_C10,
+        mc=[_mc("TssSigning_MC_C10.cfg", "quick", 900), _mc("TssSigning_MC_live.cfg", "quick", 300), _TRANS] + _MC_C10,
         gen=dict(tla="TssSigning_Gen.tla", cfg="TssSigning_Gen.cfg", depth=26, num=dict(quick=300, thorough=4000), timeout=900),
         drive=dict(family="tsssigning", mode="c10", nrand=dict(quick=300, thorough=6000)),
         trace=dict(tla="TssSigning_Trace.tla", cfg="TssSigning_Trace_C10.cfg"),
